@@ -55,8 +55,15 @@ def run_check(pid, tier, seed):
     if tier == "thorough" and os.environ.get("VERIF_LEANCHECKER", "1") == "1":
         core.leanchecker(sorted({t.split(":")[0] for t in spec["theorems"]}))
         checked_by_leanchecker = True
+    # change-directed effort: a modelled function that differs from the validated version gets the
+    # thorough generator budget even in the quick tier (steers effort only, never a verdict)
+    import fingerprint
+    changed = fingerprint.changed()
+    if changed and tier == "quick":
+        os.environ["VERIF_QUICK_SCALE"] = os.environ.get("VERIF_CHANGED_SCALE", "16")
+        print("note: source differs from the validated version in %s - quick tier runs with a larger budget" % changed)
     # 2.+3. implementation runs: correspondence lines and direct sweep
-    nparts = int(os.environ.get("VERIF_JOBS", "14" if tier == "thorough" else "4"))
+    nparts = int(os.environ.get("VERIF_JOBS", "14" if tier == "thorough" else ("8" if changed else "4")))
     jobs = [(pid, tier, seed, i, nparts) for i in range(nparts)]
     if nparts == 1:
         parts = [run_part(jobs[0])]
@@ -146,6 +153,7 @@ def run_check(pid, tier, seed):
             "samples": (m["samples"][:6] or clines[:3]),
             "exhaustive": False, "lean_build_s": round(build_s, 2),
             "direct_sweep_failures": len(m["failures"]), "known_findings_hit": sorted(seen_known),
+            "changed_functions_since_validation": changed,
         },
         "assumptions": registry.ASSUMPTIONS + spec.get("assumptions", []),
         "wall_s": round(wall, 2), "violations": violations,
